@@ -314,7 +314,7 @@ class Interp(object):
             return len(v) > 0
         if isinstance(v, SStr):
             if v.known_len is not None:
-                return v.known_len > 0
+                return self.truthy(v.known_len)
             return self.path.branch(z3.Length(v.term) > 0)
         if isinstance(v, SHash):
             return v.nbytes > 0
@@ -485,6 +485,8 @@ class Interp(object):
         if type(fn).__name__ == "_ProxiedClassMethod":
             original = self.get_attr(args[0], fn.originalAttribute)
             return self.call_value(self.get_attr(original, fn.methodName), list(args[1:]), kwargs)
+        if type(fn).__name__ == "InterfaceClass" and len(args) >= 1 and isinstance(args[0], SObj):
+            return args[0]      # zope adaptation IFoo(obj): modelled objects are assumed to provide the interface asked for
         if isinstance(fn, SuperObj):
             raise Undecided("call of super object")
         if isinstance(fn, SObj):
